@@ -15,6 +15,8 @@
 #define RP_PED_SMALL
 #define RP_PUB_EXPAND
 #define RP_BORRO_VERIFY
+#define RP_SET_B32
+#define RP_FE_SET_B32_LIMIT
 #include "hash_log.h"
 #include "assumed_rangeproof.h"
 #include "src/secp256k1.c"
@@ -53,23 +55,27 @@ static size_t rp_rsize(const struct rp_layout *L, size_t k) { return L->mantissa
 static void rp_reset(size_t gk, size_t gb) {
     g_xq_n = 0; g_xq_hit = 0; g_xq_and = 1; g_sq_n = 0; g_sq_hit = 0; g_ag_n = 0; g_ag_hit = 0; g_ag_last_inf = 0; g_ps_n = 0; g_pe_n = 0; g_bv_n = 0; g_bv_v = 0;
     g_rp_k = gk; g_rp_b = gb; g_xq_watch = (int)gk; g_ag_watch = (int)gk;
+    g_sb_n = 0; g_sb_hit = 0; g_sb_or = 0; g_sb_wp = NULL; g_fl_n = 0; g_fl_hit = 0; g_fl_and = 1; g_fl_wp = NULL;
     HASHLOG_RESET();
 }
 
 void h_verify_gates(void) {
     INPUT(size_t, plen); INPUT(size_t, eclen); INPUT(_Bool, use_extra); INPUT(secp256k1_ge, commit); INPUT(secp256k1_ge, genp);
     INPUT(size_t, gk); INPUT(size_t, gb);
-    unsigned char *proof, *extra; uint64_t minv, maxv; secp256k1_hash_ctx hc; int ret; struct rp_layout L; size_t i;
-    int all_x_lt_p = 1, all_s_lt_n = 1, spare_ok = 1;
+    unsigned char *proof, *extra; uint64_t minv, maxv; secp256k1_hash_ctx hc; int ret; struct rp_layout L;
+    int spare_ok = 1;
     __CPROVER_assume(plen <= MAXP && eclen <= MAXE && gk < 128 && gb < 32);
     __CPROVER_assume(ge_ok(&commit) && !commit.infinity && ge_ok(&genp) && !genp.infinity);
     INPUT_BUF(pf, proof, plen, 80);
     INPUT_BUF(ex, extra, eclen, 8);
     hc.fn_sha256_compression = secp256k1_sha256_transform;
     rp_reset(gk, gb); g_we = 0; g_wpos = 0; g_sq_watch = 0;
+    L = rp_spec(proof, plen);             /* pure function of the proof bytes */
+    /* watched buffer positions: digit commitment gk and ring scalar gk of the specified layout */
+    if (L.ok && L.total <= plen && gk < L.rings - 1) g_fl_wp = proof + L.digit_off + 32 * gk;
+    if (L.ok && L.total <= plen && gk < L.npub) g_sb_wp = proof + L.s_off + 32 * gk;
     ret = secp256k1_rangeproof_verify_impl(&hc, NULL, NULL, NULL, NULL, NULL, NULL, &minv, &maxv, &commit, proof, plen, use_extra ? extra : NULL, use_extra ? eclen : 0, &genp);
     WITNESS_BUF(pf, proof, plen, 80);
-    L = rp_spec(proof, plen);
     __CPROVER_assert(ret == 0 || ret == 1, "C10 verify gates: returns 0 or 1");
     __CPROVER_assert(g_bv_n <= 1 && g_pe_n <= 1 && g_ps_n <= 1, "C10 verify gates: at most one ring verification, one expansion, one min*H");
     if (g_bv_n == 1) __CPROVER_assert(ret == g_bv_v, "C10 verify gates: once the ring equation is consulted the result is its verdict");
@@ -78,14 +84,15 @@ void h_verify_gates(void) {
         __CPROVER_assert(L.ok && minv == L.minv && maxv == L.maxv, "C10 verify gates: header accepted by getheader and reported min/max are the header's");
         __CPROVER_assert(plen == L.total, "C10 verify gates: accepted proof has exactly the specified length (no trailing bytes)");
         if ((L.rings - 1) & 7) __CPROVER_assert((proof[L.digit_off - 1] >> ((L.rings - 1) & 7)) == 0, "C10 verify gates: spare sign bits are zero");
-        __CPROVER_assert(g_xq_n == (int)(L.rings - 1) && g_xq_and == 1, "C10 verify gates: one lift per digit commitment, every lift verdict positive");
+        __CPROVER_assert(g_xq_n == (int)(L.rings - 1) && g_xq_and == 1 && g_fl_n == g_xq_n && g_fl_and == 1, "C10 verify gates: one range check and one lift per digit commitment, all positive");
         if (gk < L.rings - 1) {
-            __CPROVER_assert(b32_lt(proof + L.digit_off + 32 * gk, RP_P), "C10 verify gates: every digit commitment x < p");
-            __CPROVER_assert(g_xq_hit && g_xq_v == 1 && fval(&g_xq_x) == be256(proof + L.digit_off + 32 * gk), "C10 verify gates: lift verdict consulted for exactly this digit's x and positive");
+            __CPROVER_assert(g_fl_hit && g_fl_wv == 1 && be256(g_fl_wp) < P_(), "C10 verify gates: every digit commitment x < p");
+            __CPROVER_assert(g_xq_hit && g_xq_v == 1 && FE_EQ(g_xq_x, g_fl_wr) && fval(&g_xq_x) == be256(g_fl_wp), "C10 verify gates: lift verdict consulted for exactly this digit's x and positive");
         }
+        __CPROVER_assert(g_sb_n == (int)L.npub && g_sb_or == 0, "C10 verify gates: one scalar read per ring member, none overflowing");
         if (gk < L.npub) {
-            __CPROVER_assert(b32_lt(proof + L.s_off + 32 * gk, RP_N), "C10 verify gates: every ring scalar < n");
-            __CPROVER_assert(sval(&g_bv_s_k) == be256(proof + L.s_off + 32 * gk), "C10 verify gates: ring scalar k handed to the ring equation is proof scalar k");
+            __CPROVER_assert(g_sb_hit && g_sb_wovf == 0 && be256(g_sb_wp) < N_(), "C10 verify gates: every ring scalar < n");
+            __CPROVER_assert(SC_EQ(g_bv_s_k, g_sb_wr) && sval(&g_bv_s_k) == be256(g_sb_wp), "C10 verify gates: ring scalar k handed to the ring equation is proof scalar k");
         }
         __CPROVER_assert(g_pe_n == 1 && g_pe_exp == L.exp && g_pe_rings == L.rings && g_pe_genp == &genp, "C10 verify gates: pub_expand gets the header exponent, the ring count and the generator");
         if (gk < L.rings) __CPROVER_assert(g_pe_rs_k == rp_rsize(&L, gk) && g_bv_rs_k == rp_rsize(&L, gk), "C10 verify gates: ring sizes are 4,...,4[,2] (1 for an exact value) for expansion and ring equation");
@@ -94,7 +101,7 @@ void h_verify_gates(void) {
         __CPROVER_assert(g_bv_pubs == g_pe_pubs && g_bv_rsizes == g_pe_rsizes, "C10 verify gates: ring equation and expansion share keys and ring sizes");
         __CPROVER_assert(g_w_fin && g_bv_m_b == g_w_dig[gb], "C10 verify gates: ring message is the digest of the binding hash");
         __CPROVER_assert(g_ps_n == (L.minv != 0) && (L.minv == 0 || (g_ps_gn0 == L.minv && g_ps_genp0 == &genp)), "C10 verify gates: min_value*H computed iff min_value != 0, with the header minimum and the generator");
-        __CPROVER_assert(g_ag_n == (int)L.rings && g_ag_last_inf == 0 && g_bv_pub_inf_k == g_bv_pub_inf_k, "C10 verify gates: one accumulation per digit plus the commitment; derived last digit not at infinity");
+        __CPROVER_assert(g_ag_n == (int)L.rings && g_ag_last_inf == 0, "C10 verify gates: one accumulation per digit plus the commitment; derived last digit not at infinity");
         if (gk < L.rings - 1) {
             /* digit k: the lifted point, negated iff its sign bit is set, is what is accumulated (in place) */
             secp256k1_ge t = g_xq_r;
@@ -106,12 +113,11 @@ void h_verify_gates(void) {
             __CPROVER_assert(g_ag_hit && g_ag_bp == &commit && SAME_PTR(g_ag_rp, g_pe_pubs, 4 * (L.rings - 1) * sizeof(secp256k1_gej)), "C10 verify gates: last digit = commitment + (negated accumulator), stored as first key of the last ring");
         }
     }
-    /* exactness, other direction: rejected without consulting the ring equation only if a gate fails */
+    /* exactness, other direction: a proof is rejected without consulting the ring equation only if the header, the
+     * length, the spare sign bits, a digit range check / lift, the derived last digit or a scalar range check fails */
     if (L.ok && plen == L.total) {
-        for (i = 0; i < 31; i++) if (i < L.rings - 1) all_x_lt_p &= b32_lt(proof + L.digit_off + 32 * i, RP_P);
-        for (i = 0; i < 128; i++) if (i < L.npub) all_s_lt_n &= b32_lt(proof + L.s_off + 32 * i, RP_N);
         if ((L.rings - 1) & 7) spare_ok = (proof[L.digit_off - 1] >> ((L.rings - 1) & 7)) == 0;
-        if (spare_ok && all_x_lt_p && all_s_lt_n && g_xq_and && !g_ag_last_inf)
+        if (spare_ok && g_fl_and && g_xq_and && !g_ag_last_inf && !g_sb_or)
             __CPROVER_assert(g_bv_n == 1, "C10 verify gates: a proof passing every format gate reaches the ring equation (no other reason to reject)");
     }
     if (ret == 1 && L.mantissa == 64 && L.minv != 0) REACH("verify accepts 64-bit mantissa with min");
